@@ -91,6 +91,14 @@ pub fn pool(tier: Tier) -> Vec<V> {
         p.push(V::dt(1_625_097_600, 1, z));
     }
     p.push(V::dt(1_625_097_601, 0, "UTC"));
+    // instants far from the present: before 1678 and after 2262 (outside the range of a 64-bit
+    // nanosecond count), year 1 and year 9999, in two zones each, one nanosecond apart
+    for secs in [-62_135_596_800i64, -30_610_224_000, -9_214_560_000, 9_300_000_000, 10_413_792_000, 13_569_465_600, 253_402_300_799] {
+        for z in ["UTC", "America/New_York"] {
+            p.push(V::dt(secs, 0, z));
+        }
+        p.push(V::dt(secs, 1, "UTC"));
+    }
     if tier == Tier::Quick {
         // containers over a small core
         let core = vec![V::num(0.0), V::num(-0.0), V::numu(1.0, "m"), V::numu(1.0, "s"), V::num(1.0), V::num(2.0), V::Ref("a".into(), None), V::Ref("a".into(), Some("x".into()))];
@@ -814,7 +822,7 @@ fn mutation_laws(run: &mut Run) {
 
 pub fn run(tier: Tier) -> i32 {
     let mut run = Run::new("C12", tier, "exploration");
-    run.rule = "near-collision pool Π (±0 plain/with unit/in Coord/nested, same magnitude under different or no unit, Refs differing only in dis, same payload under different kinds, dict/list/grid neighbours, equal instants in different zones); every law on all |Π|² ordered pairs and all |Π|³ triples, for Value and each typed value; plus the wide set W (Π, the scalar alphabet Σ — every 5th value in the quick tier —, 300/1500 containers of U, the ver variants; no NaN): every pair law on all |W|² ordered pairs of Values and transitivity of == and of cmp on all |W|³ triples decided through ranks and classes (equivalent, O(|W|²)); HashSet/BTreeSet/sort+dedup of W have one element per ==-class; for every pair of identifier-like string literals of the library's own source (harvested from /repo/src at run time) two dicts carrying those tags and differing in a third tag only must be unequal under ==, cmp, partial_cmp; laws after mutation: every ordered pair of 29 dict contents x 8 routes (a dict that was hashed / compared / cloned / put into sets is edited in place — insert+remove, clear+extend, retain+get_mut, clone first, inside a Value, a list element, a grid row, grid meta — into the other content) must be ==, cmp-equal, hash-equal (two hashers) and set-interchangeable with a freshly built value; non-trivial = ordered pair of two different pool entries (distinct by type + both values)".into();
+    run.rule = "near-collision pool Π (±0 plain/with unit/in Coord/nested, same magnitude under different or no unit, Refs differing only in dis, same payload under different kinds, dict/list/grid neighbours, equal instants in different zones, instants before 1678 / after 2262 / in year 1 and 9999); every law on all |Π|² ordered pairs and all |Π|³ triples, for Value and each typed value; plus the wide set W (Π, the scalar alphabet Σ — every 5th value in the quick tier —, 300/1500 containers of U, the ver variants; no NaN): every pair law on all |W|² ordered pairs of Values and transitivity of == and of cmp on all |W|³ triples decided through ranks and classes (equivalent, O(|W|²)); HashSet/BTreeSet/sort+dedup of W have one element per ==-class; for every pair of identifier-like string literals of the library's own source (harvested from /repo/src at run time) two dicts carrying those tags and differing in a third tag only must be unequal under ==, cmp, partial_cmp; laws after mutation: every ordered pair of 29 dict contents x 8 routes (a dict that was hashed / compared / cloned / put into sets is edited in place — insert+remove, clear+extend, retain+get_mut, clone first, inside a Value, a list element, a grid row, grid meta — into the other content) must be ==, cmp-equal, hash-equal (two hashers) and set-interchangeable with a freshly built value; non-trivial = ordered pair of two different pool entries (distinct by type + both values)".into();
     run.assume("no NaN anywhere (excluded by the statement)");
     run.assume("SipHash (DefaultHasher) and FNV-1a stand for 'any Hasher'");
     crate::engine::quiet_panics();
@@ -908,8 +916,12 @@ pub fn replay(case: &J) -> Verdict {
         format!("{law}:{ty}:{}", descs.join("/"))
     };
     if law == "collection-size" {
-        return match local.fails.values().find(|f| f.case["law"] == "collection-size" && f.case["type"] == case["type"] && f.case["collection"] == case["collection"] && f.case["part"] == case["part"]) {
-            Some(f) => Err((f.sig.clone(), f.detail.clone())),
+        // (several symptoms of one cause share a signature, and the failure table keeps one case per
+        // signature: the exact symptom first, else any collection consequence for this type)
+        let same_type = |f: &&crate::engine::Failure| f.case["law"] == "collection-size" && f.case["type"] == case["type"];
+        let exact = local.fails.values().filter(same_type).find(|f| f.case["collection"] == case["collection"] && f.case["part"] == case["part"]);
+        return match exact.or_else(|| local.fails.values().filter(same_type).min_by(|a, b| a.sig.cmp(&b.sig))) {
+            Some(f) => Err((f.sig.clone(), format!("collection consequence for {}", case["type"]))),
             None => Ok(()),
         };
     }
